@@ -71,6 +71,12 @@ Proof.
 Qed.
 Lemma pf_unfold2_root g : pf_g np (unfold2_root np h g) = true.
 Proof. apply pf_unfold2_graph. Qed.
+Lemma pf_fn_in_desc v : pf_vd np (fn_in_desc np h v) = true.
+Proof.
+  unfold fn_in_desc. cbv zeta. destruct (N.eqb (vd_name (vdesc_of np h v)) 0).
+  - unfold pf_vd. simpl. apply pfix0; auto.
+  - apply pf_vdesc_of; auto.
+Qed.
 Lemma pf_unfold2_function f : pf_f np (unfold2_function np h f) = true.
 Proof.
   unfold unfold2_function. destruct (getg h (f_graph f)) as [z|]; [|auto].
@@ -80,7 +86,7 @@ Proof.
   destruct (unfold2_nodes np h (unfold2_graph np (ser_fuel h) h) [] (gdefs h z) (g_nodes z)) as [nts lvl].
   simpl in *.
   apply andb_true_intro; split; [|exact Hn].
-  apply forallb_map_all. intros; apply pf_vdesc_of; auto.
+  apply forallb_map_all. intros; apply pf_fn_in_desc.
 Qed.
 Lemma pf_unfold2_model m : pf_m np (unfold2_model np h m) = true.
 Proof.
@@ -148,6 +154,15 @@ Proof.
 Qed.
 Lemma unfold2_root_fix g : pf_g np (unfold2_root [] h g) = true -> unfold2_root np h g = unfold2_root [] h g.
 Proof. apply unfold2_graph_fix. Qed.
+Lemma vdesc_out v : vd_out (vdesc_of np h v) = vd_out (vdesc_of [] h v).
+Proof. unfold vdesc_of. destruct (getv h v); reflexivity. Qed.
+Lemma fn_in_desc_fix v : pf_vd np (fn_in_desc [] h v) = true -> fn_in_desc np h v = fn_in_desc [] h v.
+Proof.
+  unfold fn_in_desc. cbv zeta. rewrite (vdesc_name np h v).
+  destruct (N.eqb (vd_name (vdesc_of [] h v)) 0).
+  - intros _. rewrite (vdesc_named np h v), vdesc_out. reflexivity.
+  - apply vdesc_fix.
+Qed.
 Lemma unfold2_function_fix f :
   pf_f np (unfold2_function [] h f) = true -> unfold2_function np h f = unfold2_function [] h f.
 Proof.
@@ -159,7 +174,7 @@ Proof.
   simpl in *.
   intros H. apply andb_prop in H. destruct H as [H1 H2].
   rewrite En by auto. f_equal.
-  - apply vdescs_fix; auto.
+  - revert H1. apply map_fix. intros; apply fn_in_desc_fix; auto.
   - apply map_ext. intros v. rewrite (vdesc_name np), (vdesc_named np). reflexivity.
 Qed.
 Lemma unfold2_model_fix m :
